@@ -417,14 +417,37 @@ CHECKS["C06"] = dict(
               "and slot equalities, replay on the compiled class",
     design="2/C06")
 
+CHECKS["C11"] = dict(
+    level="other",
+    text="The pysph side of the round trip is executed symbolically: the "
+         "real pysph.solver.output.dump/load (Output.dump, NumpyOutput, "
+         "HDFOutput) and get_particles_info run on the ParticleArray lowered "
+         "from particle_array.pyx with symbolic property values and symbolic "
+         "tags (n<=3 particles, 1-2 arrays; double/float/int/long/unsigned, "
+         "strides 1-3, defaults, constants, output lists with and without "
+         "tag; zero particles) for npz and hdf5 x detailed_output x only_real "
+         "x compress. numpy's npz files and h5py are replaced by their "
+         "contract. After load z3 decides per path that name, properties, C "
+         "types, strides, defaults, constants, output list and solver data "
+         "are the dumped ones, that every stored property holds the dumped "
+         "values of the same particles (only Local ones with only_real) and "
+         "that num_real_particles counts the Local particles.",
+    note="numpy.savez/load and h5py are environment modelled by contract "
+         "(checked on the real libraries in a concrete unit); lowering and "
+         "cyarray/numpy models as in C06; version-1 files, MPI gather and "
+         "dtype conversion inside numpy/h5py outside; replay writes real "
+         "files with the compiled class",
+    technique="symbolic execution of the python dump/load code over a "
+              "lowered ParticleArray with file formats stubbed by contract, "
+              "solver-decided equalities per path, replay through real "
+              "npz/hdf5 files",
+    design="2/C11")
+
 NOT_APPLICABLE = {
     "C05": "whole-application runs of compiled OpenMP code compared across "
            "configurations up to summation order: no unit a solver can "
            "encode here (no symbolic engine for compiled C++/OpenMP); its "
            "decidable ingredients are checked under C01/C03/C17",
-    "C11": "file round trip through numpy.savez/pickle/zip/h5py (I/O behind "
-           "FFI); the pysph side is dictionary plumbing with nothing for a "
-           "solver to range over",
 }
 
 PENDING = "check not built yet in this round (see DESIGN.md section 5 for the build order)"
